@@ -684,6 +684,11 @@ impl File {
         self.failed_runid = None;
         self.is_override = false;
         self.is_generated = false;
+        // A source has no checksum: one left over from the time this file was a
+        // checksummed target would make redo-stamp report "unchanged" when the
+        // target is generated again with its old data, although its dependents
+        // were built from the hand-made file in between.
+        self.csum = String::new();
         Ok(())
     }
 
